@@ -19,6 +19,7 @@ package clientcredentials
 import (
 	"context"
 	"crypto/sha256"
+	"encoding/binary"
 	"encoding/hex"
 	"io"
 	"net/http"
@@ -96,6 +97,17 @@ func (c *Config) calculateCacheKey() string {
 	digest.Write(stringx.ToBytes(c.ClientSecret))
 	digest.Write(stringx.ToBytes(c.TokenURL))
 	digest.Write(stringx.ToBytes(strings.Join(c.Scopes, "")))
+
+	// the configured ttl is part of the key: a token cached under a long ttl is not handed to a use with a shorter one
+	const int64BytesCount = 8
+
+	ttlBytes := make([]byte, int64BytesCount+1)
+	if c.TTL != nil {
+		ttlBytes[0] = 1
+		binary.LittleEndian.PutUint64(ttlBytes[1:], uint64(*c.TTL))
+	}
+
+	digest.Write(ttlBytes)
 
 	return hex.EncodeToString(digest.Sum(nil))
 }
